@@ -54,6 +54,9 @@ pub struct Model {
     pub list_unjudged: bool,
     /// keys whose bucket was damaged in a way the reference reader resolved (bookkeeping)
     pub damaged_buckets: u32,
+    /// pure mode: never look at the disk (used when candidate serial orders are replayed
+    /// after the fact); a successful write is taken to publish its data
+    pub pure: bool,
 }
 
 pub fn entry_matches(e: &Entry, key: &str, m: &MetaNorm) -> Result<(), String> {
@@ -113,6 +116,7 @@ impl Model {
             index_dir: false,
             list_unjudged: false,
             damaged_buckets: 0,
+            pure: false,
         }
     }
 
@@ -181,6 +185,12 @@ impl Model {
         must_hold_data: bool,
         what: &str,
     ) -> Result<(), String> {
+        if self.pure {
+            if must_hold_data {
+                self.content.insert(addr.clone(), CState::Data { bytes: expect.clone(), symlink: false });
+            }
+            return Ok(());
+        }
         let p = reffmt::content_path(&ctx.cache, addr.0, &addr.1);
         let now = obs_to_cstate(observe(&p));
         let prev = self.content.get(addr).cloned();
@@ -319,6 +329,9 @@ impl Model {
                 self.content.clear();
                 self.index_dir = false;
                 self.list_unjudged = false;
+                if self.pure {
+                    return Ok(());
+                }
                 let left: Vec<_> = std::fs::read_dir(&ctx.cache).map(|r| r.flatten().map(|e| e.file_name()).collect()).unwrap_or_default();
                 if !left.is_empty() {
                     return Err(format!("clear left {:?} in the cache directory", left));
@@ -593,6 +606,15 @@ impl Model {
         let addr = (algo, blob::hexs(&blob::digest_raw(algo, &data)));
         let (di, ds, ok_int, undecided_int, ok_size) = self.commit_checks(integ, declare, algo, &data);
         let what = format!("link_to(key={:?}, {} bytes, {:?})", l.key.map(|k| ctx.key(k)), data.len(), l);
+        // the harness (re)wrote the target file just before the call: addresses linked to an
+        // earlier version of that file now read whatever it holds
+        let linked: Vec<(Algo, String)> =
+            self.content.iter().filter(|(_, c)| matches!(c, CState::Data { symlink: true, .. } | CState::Dangling)).map(|(a, _)| a.clone()).collect();
+        for a in linked {
+            if a != addr {
+                self.adopt_content(ctx, &a);
+            }
+        }
         let must_succeed = ok_int && ok_size;
         let prev = self.content.get(&addr).cloned();
         let p = reffmt::content_path(&ctx.cache, addr.0, &addr.1);
